@@ -141,6 +141,30 @@ func explainedByDoubleRead(r *runner, q *node.Query, dup []node.Point) bool {
 	return status == "" && len(diffs) == 0
 }
 
+// explainedByDoubleReadAndPlaces: the flushed generation is read twice AND the parts of a slot in different places are
+// combined with the query function (both causes are open); the second copy of the generation is one more place.
+func explainedByDoubleReadAndPlaces(r *runner, q *node.Query, dup []node.Point) bool {
+	if len(dup) == 0 {
+		return false
+	}
+	alt := r.track.altModel(false, true, nil)
+	if alt == nil {
+		return false
+	}
+	var extra []node.Point
+	for _, p := range dup {
+		cp := p
+		cp.Tags = map[string]string{"zz_place": "flushed-generation-still-attached"}
+		for k, v := range p.Tags {
+			cp.Tags[k] = v
+		}
+		extra = append(extra, cp)
+	}
+	alt.Add(extra)
+	_, _, diffs, status := r.run(q, alt)
+	return status == "" && len(diffs) == 0
+}
+
 func runParked(res *caseResult, idx int, dir, tier string, rnd *rand.Rand) {
 	sc := genSchema(rnd, idx%4 == 0)
 	sc.Shards = 1
@@ -148,7 +172,7 @@ func runParked(res *caseResult, idx int, dir, tier string, rnd *rand.Rand) {
 	seam.InstallKV(g, nil)
 	defer seam.Restore()
 	r, err := newRunner(res, dir, sc, fmt.Sprintf("conc-%d", idx), "parked", rnd, func(o *node.Options) {
-		o.ReplicaSequences, o.Leader, o.StrictTickGuard = true, 1, true
+		o.ReplicaSequences, o.Leader = true, 1
 	})
 	if err != nil {
 		res.Notes = append(res.Notes, "open failed: "+err.Error())
@@ -156,12 +180,9 @@ func runParked(res *caseResult, idx int, dir, tier string, rnd *rand.Rand) {
 	}
 	defer r.close()
 	r.n.AckHook = func(f tsdb.DataFamily, _ int64) { g.at("ack-window", familyDir(f)) }
-	// The write and query shapes of the concurrent variant stay clear of the input shapes that already fail without any
-	// concurrency (they are exercised by the sequential histories): slots per series only move forward, every point
-	// carries all fields of its metric, every field is read with the aggregate of its own type.
+	// the same write and query shapes as the sequential histories (the labelling tracker follows the parked flush)
 	wg := newWriteGen(rnd, sc)
-	wg.monotonic, wg.allFields = true, true
-	qg := &queryGen{rnd: rnd, sc: sc, clean: true}
+	qg := &queryGen{rnd: rnd, sc: sc}
 	track := &pendingTracker{base: sc.Base, pending: map[int64][]node.Point{}}
 	rounds := 8
 	if tier == "thorough" {
@@ -276,6 +297,8 @@ func runParked(res *caseResult, idx int, dir, tier string, rnd *rand.Rand) {
 						class = "C11/query-error/during-flush/" + normErr(qr.Err)
 					case imm && committed && explainedByDoubleRead(r, q, generation):
 						class = "C11/family/flush-commit-window/table-file-and-flushed-memdb-both-read"
+					case imm && committed && explainedByDoubleReadAndPlaces(r, q, generation):
+						class = "C11/combined/places+flush-commit-window"
 					default:
 						fs, _ := queryFields(q)
 						cl := r.classify(q, stLabel, diffs, fs)
@@ -357,7 +380,7 @@ func runFree(res *caseResult, idx int, dir, tier string, rnd *rand.Rand) {
 	sc := genSchema(rnd, idx%4 == 1)
 	sc.Shards = 1
 	r, err := newRunner(res, dir, sc, fmt.Sprintf("conc-%d", idx), "free", rnd, func(o *node.Options) {
-		o.ReplicaSequences, o.Leader, o.StrictTickGuard = true, 1, true
+		o.ReplicaSequences, o.Leader = true, 1
 	})
 	if err != nil {
 		res.Notes = append(res.Notes, "open failed: "+err.Error())
@@ -386,10 +409,10 @@ func runFree(res *caseResult, idx int, dir, tier string, rnd *rand.Rand) {
 		mu.Unlock()
 	}
 	wg := newWriteGen(rnd, sc)
-	wg.monotonic, wg.allFields = true, true
-	// no tag conditions either: the harness does not know which generation a free running flush wrote, so it could not
-	// tell the (known) loss of memory results behind unmatched table blocks from a new failure
-	qg := &queryGen{rnd: rnd, sc: sc, clean: true, noCond: true}
+	// One restriction is left, for a cause that is still open: every field is read with the aggregate of its own type.
+	// With another function the parts a slot has in several places are combined wrongly (C11/downsampling/...), and the
+	// harness cannot label that here because it does not follow the places while flushes run freely.
+	qg := &queryGen{rnd: rnd, sc: sc, clean: true}
 	// noise: existing series of a metric nobody queries, and the queried metrics in an hour outside every range
 	noiseRnd := rand.New(rand.NewSource(rnd.Int63()))
 	reserved := sc.Base + int64(sc.Hours)*hourMs
